@@ -314,6 +314,32 @@ func (c c01) lineages(ctx *core.Ctx, cfgs []dbCfg, all bool) {
 		}
 	}
 	ctx.Ev.Bounds["legacy_lineages"] = fmt.Sprintf("%d sessions: each 7-key legacy fixture table as the oldest table, then every word of <= 2 steps over {Put(L3,x), Delete(L3), Put(a,x)}+flush, Compact, Compact, Reopen", nleg)
+	// long histories around numeric boundaries (file numbers reaching two digits, more tables in one cycle than any
+	// fan-in, WAL files numbered 8, 9, 10 while one memstore generation owns several of them)
+	nlong := 0
+	for n := 1; n <= 20; n++ {
+		for _, ci := range []int{0, 2} {
+			prog := []dbOp{{Op: "putrot", K: 0, V: 0}, {Op: "delrot", K: 0}}
+			for j := 0; j < n; j++ {
+				prog = append(prog, dbOp{Op: "putrot", K: 1 + j%2, V: 0})
+			}
+			prog = append(prog, dbOp{Op: "cmp"}, dbOp{Op: "putrot", K: 2, V: 0}, dbOp{Op: "reopen", C: ci})
+			cases = append(cases, core.J(c01Case{Flavor: "C06", Init: ci, Path: prog[:len(prog)-1], Ops: prog[len(prog)-1:], CheckAll: true}))
+			nlong++
+		}
+	}
+	for n := 4; n <= 12; n++ {
+		// n forced rotations, then 400 overwrites of one key under a 100-byte memstore limit (the WAL file rotates by size
+		// twice inside that generation), a final overwrite, a flush and a restart - configuration 1 of the C01 set
+		var prog []dbOp
+		for j := 0; j < n; j++ {
+			prog = append(prog, dbOp{Op: "putrot", K: 1 + j%2, V: 0})
+		}
+		prog = append(prog, dbOp{Op: "churn", K: 0}, dbOp{Op: "put", K: 0, V: 0}, dbOp{Op: "rot"}, dbOp{Op: "reopen", C: 1})
+		cases = append(cases, core.J(c01Case{Flavor: "C01", Init: 1, Path: prog[:len(prog)-1], Ops: prog[len(prog)-1:], CheckAll: true}))
+		nlong++
+	}
+	ctx.Ev.Bounds["long_histories"] = fmt.Sprintf("%d: Put(a) Delete(a) + n flushes of other keys (n = 1..20) + Compact + flush + Reopen under two configurations; n = 4..12 forced rotations + 400 overwrites + Put + flush + Reopen under a 100-byte memstore limit", nlong)
 	ctx.Ev.Bounds["lineage_tables"] = k
 	ctx.Ev.Bounds["lineages"] = len(lins)
 	if all {
